@@ -23,6 +23,7 @@ def run(chk):
         # without polarities no cell is ever re-oriented: any increase is a violation (the open finding cannot match)
         dict(flavour="asan-ubsan", scen="det", runs=(900, 25000), opts={"cb": 1, "polar": 0, "maxNets": 16, "varyScale": 1}),
         dict(flavour="rel", scen="det", runs=(900, 25000), opts={"cb": 2, "polar": 1, "maxNets": 16, "maxMovable": 14}),
+        dict(flavour="asan-ubsan", scen="passes", runs=(700, 25000), opts={"polar": 0, "maxNets": 16, "maxMovable": 14, "varyScale": 10}),
     ]
     run_plan(chk, "C05", plan, nontrivial)
     chk.cov["rule"] = ("placeDetailed executions on random circuits with nets of degree 1..many (repeated cells, fixed pins, offsets inside/outside "
